@@ -4,6 +4,10 @@
 
 pub mod alloc;
 pub mod ctx;
+pub mod gen;
 pub mod monitors;
+pub mod oracle;
+pub mod refenc;
 pub mod rng;
 pub mod runner;
+pub mod visit;
